@@ -98,5 +98,47 @@ Theorem T20_3c_untouched_segment_survives :
 Proof. exact build_keeps_segment. Qed.
 Print Assumptions T20_3c_untouched_segment_survives.
 
+(* T20.4 (round 5, seed C20-d) nodes.  The direct-editing back end (processing.remove_nodes, alter_code) and the
+   rules' own guards ask has_ignore_comment about the character range of a NODE.  A non-empty range that starts
+   inside physical line [first] and ends inside line [last] is refused exactly when one of the physical lines
+   first..last protects; for the range core.get_charnos hands over, [first] is the line of the first decorator. *)
+Theorem T20_4_node_range_is_its_lines : forall src coms r first last,
+  spans src r first last = true ->
+  has_ignore src coms r = node_lines_ignore src coms first last.
+Proof. exact node_range_is_its_lines. Qed.
+Print Assumptions T20_4_node_range_is_its_lines.
+
+(* T20.4b a range that starts only at the def/class line misses exactly the decorator lines first..lineno-1 *)
+Theorem T20_4b_late_start_misses_decorator_lines : forall src coms r r' first lineno last,
+  spans src r first last = true -> spans src r' lineno last = true ->
+  (first < lineno)%nat -> (lineno <= last)%nat ->
+  has_ignore src coms r = node_lines_ignore src coms first (lineno - 1) || has_ignore src coms r'.
+Proof. exact late_start_misses_decorator_lines. Qed.
+Print Assumptions T20_4b_late_start_misses_decorator_lines.
+
+(* the reading "node.lineno .. node.end_lineno" is refuted ("@d  # pyrefact: ignore" + "def f(): pass") and holds
+   under the guard that no decorator line protects *)
+Theorem T20_4_refuted_for_lineno_reading :
+  exists src coms r first lineno last,
+    spans src r first last = true /\ (first < lineno)%nat /\ (lineno <= last)%nat
+    /\ has_ignore src coms r = true /\ node_lines_ignore src coms lineno last = false.
+Proof. exact lineno_reading_refuted. Qed.
+Print Assumptions T20_4_refuted_for_lineno_reading.
+
+Theorem T20_4_partial_lineno_reading : forall src coms r first lineno last,
+  spans src r first last = true -> (first < lineno)%nat -> (lineno <= last)%nat ->
+  node_lines_ignore src coms first (lineno - 1) = false ->
+  has_ignore src coms r = node_lines_ignore src coms lineno last.
+Proof. exact lineno_reading_partial. Qed.
+Print Assumptions T20_4_partial_lineno_reading.
+
+Example T20_4_examples :
+  spans DECO_SRC (0, 36)%Z 0 1 = true /\ spans DECO_SRC (23, 36)%Z 1 1 = true
+  /\ spans DECO_SRC (23, 36)%Z 0 1 = false
+  /\ has_ignore DECO_SRC (Some [0%nat]) (23, 36)%Z = false
+  /\ node_lines_ignore DECO_SRC (Some [0%nat]) 0 1 = true
+  /\ node_lines_ignore DECO_SRC (Some [0%nat]) 0 0 = true.
+Proof. exact node_examples. Qed.
+
 (* R20.4 (direct-edit back end: processing.remove_nodes/_insert_nodes/alter_code have no ignore test)
    is not a statement about this model; it is a known finding reproduced by the sweep (findings F20-n). *)
